@@ -30,7 +30,7 @@ theorem cache_holds_function_values (S : Spec α P ν κ C) (E : Env α P) (nbe 
     (∀ u v, lookup u (run S E nbe St.init ps).data = some v →
         E.isnan (E.f (S.coord u)) = false ∧ v = E.norm (E.f (S.coord u))) ∧
     (∀ c co, lookup c (run S E nbe St.init ps).coeffs = some co →
-        co = S.build c ((S.stencil c).map (nodeVal S E))) :=
+        S.build c ((S.stencil c).map (nodeVal S E)) = some co) :=
   run_inv S E nbe ps _ (inv_init S E)
 
 /-- which calls the wrapped function receives: none for a calculated cell; otherwise exactly the not-yet-sampled nodes
@@ -51,7 +51,9 @@ theorem calls_exact (S : Spec α P ν κ C) (E : Env α P) (nbe : Bool) (st : St
     simp only []
     cases hco : lookup c st.coeffs with
     | some co => rfl
-    | none => exact sample_calls S E _ (hnd c) _
+    | none =>
+      simp only []
+      split <;> exact sample_calls S E _ (hnd c) _
 
 /-- **outside_policy.**  Where `locate` finds no cell the result is `ValueError`, or with `no_boundary_error` the
 wrapped function's own value; the cache is not touched. -/
